@@ -1,10 +1,12 @@
-(* C04 — no look-ahead.  Statements only; proofs in Proofs/LookaheadProofs.v.
-   Partial: what is proved is that the data reads of the selection / statistic algos are confined to rows
-   dated now or earlier; the whole-run statement (results up to t are unchanged by any change of later data)
-   is decided by the perturbation-pair suite on the implementation and by the correspondence with the model,
-   whose interpreter only ever indexes data at rows <= now. *)
+(* C04 — no look-ahead.  Statements only; proofs in Proofs/LookaheadProofs.v and Proofs/EngineLookahead.v.
+   Partial: proved are (a) for the ENGINE, trees of any depth and any number instance (floats: bit for bit): any sequence
+   of StrategyBase.update / SecurityBase.update calls to dates up to t gives the same tree whatever the prices, bid/offer,
+   coupons and holding costs after t are (under the stated commutation hypothesis on the paper step of sub-strategies,
+   which a tree of securities never calls); (b) for the ALGOS, that the data reads of the selection / statistic algos
+   are confined to rows dated now or earlier.  The whole-run statement over every stock algo is decided by the
+   perturbation-pair suite on the implementation and by the correspondence with the model. *)
 From Coq Require Import List ZArith.
-Require Import BT.Num BT.Base BT.Records BT.Engine BT.Ops BT.Algos BT.Proofs.LookaheadProofs.
+Require Import BT.Num BT.Base BT.Records BT.Engine BT.Ops BT.Algos BT.Proofs.LookaheadProofs BT.Proofs.EngineLookahead.
 
 Theorem C04_tradable_reads_current_row_partial : forall N (g1 g2 : strat N (astate N)) i neg names,
   cols_agree_upto i (univ_cols g1) (univ_cols g2) -> tradable g1 i neg names = tradable g2 i neg names.
@@ -22,3 +24,40 @@ Theorem C04_window_counts_depend_on_prefix_partial : forall N (e : env N) lo hi 
   length (filter (fun rr => present_cell (nth rr c2 None)) (window_rows e lo hi i)).
 Proof. exact window_count_prefix. Qed.
 Print Assumptions C04_window_counts_depend_on_prefix_partial.
+
+(* SecurityBase.update and its subclasses at row i read row i of their data and nothing else: replacing the five data
+   columns by any others with the same row i, before or after the update, gives the same security (every live number,
+   every history row) or the same error *)
+Theorem C04_security_update_reads_the_current_row_only : forall N date i (s : sec N) D,
+  agree N i s D -> sec_update date i (swap N D s) = rmap (swap N D) (sec_update date i s).
+Proof. exact sec_update_swap. Qed.
+Print Assumptions C04_security_update_reads_the_current_row_only.
+
+Theorem C04_swapping_data_changes_no_recorded_number : forall N (s : sec N) D,
+  (s_id (swap N D s), s_now (swap N D s), s_pos (swap N D s), s_lastpos (swap N D s), s_price (swap N D s), s_value (swap N D s),
+   s_notl (swap N D s), s_weight (swap N D s), s_needupdate (swap N D s), s_outlay (swap N D s), s_bidoffer (swap N D s),
+   s_bidoffer_paid (swap N D s), s_capital (swap N D s), s_coupon (swap N D s), s_holding_cost (swap N D s)) =
+  (s_id s, s_now s, s_pos s, s_lastpos s, s_price s, s_value s, s_notl s, s_weight s, s_needupdate s, s_outlay s, s_bidoffer s,
+   s_bidoffer_paid s, s_capital s, s_coupon s, s_holding_cost s) /\
+  (h_values (swap N D s), h_positions (swap N D s), h_notls (swap N D s), h_outlays (swap N D s), h_bopaid (swap N D s),
+   h_coupons (swap N D s), h_hcosts (swap N D s), s_risk (swap N D s)) =
+  (h_values s, h_positions s, h_notls s, h_outlays s, h_bopaid s, h_coupons s, h_hcosts s, s_risk s).
+Proof. exact swap_observables. Qed.
+Print Assumptions C04_swapping_data_changes_no_recorded_number.
+
+(* the same for StrategyBase.update on a whole tree (any depth; the strategies' own records are not touched by swapN) *)
+Theorem C04_tree_update_reads_the_current_row_only :
+  forall N (A : Type) (F : nat -> cols N) (ps : option nat -> tree N A -> result (tree N A)) date i (n : node N A),
+  PS N A F ps i -> agreeN N A F i n ->
+  node_update ps date i (swapN N A F n) = rmap (swapN N A F) (node_update ps date i n).
+Proof. exact node_update_swap. Qed.
+Print Assumptions C04_tree_update_reads_the_current_row_only.
+
+(* ... and over any sequence of updates to dates up to t, for data that agrees up to t *)
+Theorem C04_engine_no_lookahead_partial :
+  forall N (A : Type) (F : nat -> cols N) (ps : option nat -> tree N A -> result (tree N A)) t
+         (steps : list (option nat * nat)),
+  (forall j, j <= t -> PS N A F ps j /\ PSA N A F ps j) -> Forall (fun st => snd st <= t) steps ->
+  forall n, agree_upto N A F t n -> updates N A ps steps (swapN N A F n) = rmap (swapN N A F) (updates N A ps steps n).
+Proof. exact updates_swap. Qed.
+Print Assumptions C04_engine_no_lookahead_partial.
